@@ -191,8 +191,8 @@ def icc_cases(ctx):
     k = rng.range(3, 5)
     lens += [k * CHUNK + rng.choice([-1, 0, 1]), rng.range(15, 4000), rng.range(CHUNK + 2, 2 * CHUNK - 2)]
     if ctx.thorough():
-        lens += [k2 * CHUNK + d for k2 in (3, 7, 20, 100) for d in (-1, 0, 1)]
-        lens += [255 * CHUNK - 1, 255 * CHUNK]
+        lens += [k2 * CHUNK + d for k2 in (3, 7, 20) for d in (-1, 0, 1)]
+        lens += [100 * CHUNK, 255 * CHUNK - 1, 255 * CHUNK]
     cases = []
     for i, n in enumerate(lens):
         for api in ("tj", "jpeg"):
@@ -283,7 +283,8 @@ def run_icc(ctx, R, cases):
             line = "rd %s %s" % (cfg, stream.hex())
             # the extracted model's second pass costs segments x length list operations: on the very long
             # profiles it reads the stream-order and the reversed variant only
-            hl.append(line); ml.append(line if c["len"] <= 30 * CHUNK or name in ("plain", "reversed") else "-")
+            big_model = name == "plain" and (c["len"] <= 100 * CHUNK or (c["len"] == 255 * CHUNK and c["api"] == "jpeg"))
+            hl.append(line); ml.append(line if c["len"] <= 30 * CHUNK or big_model else "-")
             meta.append((ci, "rd:" + name, exp, None))
             if c["len"] <= 30 * CHUNK or name == "plain":
                 hl.append("tjrd -1 " + stream.hex()); ml.append("-"); meta.append((ci, "tjrd:" + name, exp, None))
@@ -366,7 +367,7 @@ def marker_data(m):
     d = content(seed, ln)
     pre = {"jfif": b"JFIF\0\x01\x02\x01\x00\x48\x00\x60\x00\x00", "jfxx": b"JFXX\0\x13", "jfif-short": b"JFIF\0\x01",
            "adobe": b"Adobe\0\x64\x80\0\0\0\x01", "adobe0": b"Adobe\0\x64\x80\0\0\0\x00", "adobe1": b"Adobe\0\x64\x80\0\0\0\x01",
-           "adobe2": b"Adobe\0\x64\x80\0\0\0\x02", "adobe-short": b"Adobe", "iccsig": SIG}.get(style, b"")
+           "adobe2": b"Adobe\0\x64\x80\0\0\0\x02", "adobe-short": b"Adobe", "iccsig": SIG, "exif": b"Exif\0\0"}.get(style, b"")
     if pre:
         d = (pre + d)[:max(ln, 0)] if ln >= len(pre) else pre
     if style == "adobe-short":
@@ -444,6 +445,8 @@ def run_mk(ctx, R, cases):
         nlib = len(head) - len(ds)
         if nlib < 0 or head[nlib:] != ds:
             ctx.violation("markers in the stream differ from the markers written", {"case": c}, signature="marker-stream-differs")
+        meta.append((ci, "emit", b"".join(seg_bytes(*s) for s in head[max(nlib, 0):])))
+        hl.append("-"); ml.append("mapi " + ",".join("%d:%s" % (code, d.hex()) for code, d in ds))
         meta.append((ci, "emit", b"".join(seg_bytes(*s) for s in head[max(nlib, 0):])))
         cfgs = ",".join("%d:%d" % (a, b) for a, b in c["cfg"])
         line = "rd %s %s" % (cfgs, jpg.hex())
@@ -1095,6 +1098,7 @@ def join_file(units):
 def expected_views(units, cfg_all=True):
     """independent 'last definition wins' reading of the marker sequence: one dict per SOS"""
     ri, qt, dc, ac, nm, views = 0, [None] * 4, [None] * 4, [None] * 4, 0, []
+    L, U, K = [0] * 16, [1] * 16, [5] * 16
     for u in units:
         if u[0] != "seg":
             continue
@@ -1124,8 +1128,15 @@ def expected_views(units, cfg_all=True):
                 else:
                     dc[idx] = f
                 k += 17 + cnt
+        elif code == 0xCC:
+            for k in range(0, len(d) - 1, 2):
+                if d[k] < 16:
+                    L[d[k]], U[d[k]] = d[k + 1] & 15, d[k + 1] >> 4
+                else:
+                    K[d[k] - 16] = d[k + 1]
         elif code == 0xDA:
-            views.append("ri=%d qt=%s dc=%s ac=%s nm=%d" % (ri, ",".join(x or "-" for x in qt), ",".join(x or "-" for x in dc), ",".join(x or "-" for x in ac), nm))
+            views.append("ri=%d qt=%s dc=%s ac=%s ar=%s nm=%d" % (ri, ",".join(x or "-" for x in qt), ",".join(x or "-" for x in dc), ",".join(x or "-" for x in ac),
+                                                               fnv(bytes(L + U + K)), nm))
     return views
 
 
@@ -1134,9 +1145,11 @@ def ms_cases(ctx):
     cases = []
     for i in range(ctx.n(36, 360)):
         cs = rng.choice(["gray", "ycc", "ycc", "rgb", "cmyk", "ycck"])
-        mode = rng.choice(["b", "p", "p", "pR", "bR", "o", "a", "pa"])
+        mode = rng.choice(["b", "p", "p", "pR", "bR", "o", "a", "pa", "l", "lR", "l", "b"])
         nm = rng.range(0, 3)
-        cases.append({"kind": "ms", "cs": cs, "mode": mode, "W": rng.range(8, 48), "H": rng.range(8, 48), "prec": rng.choice([8, 8, 12]),
+        prec = rng.range(2, 16) if "l" in mode else rng.choice([8, 8, 12, 12])
+        cases.append({"kind": "ms", "cs": cs, "mode": mode, "W": rng.range(8, 48), "H": rng.range(8, 48), "prec": prec, "psv": rng.range(1, 7),
+                      "pt": rng.range(0, prec - 1),
                       "restart": rng.choice([0, 1, 2, 3, 7]), "markers": [[rng.choice([254, 225, 237]), rng.range(0, 40), rng.next(), "rand"] for _ in range(nm)],
                       "edits": rng.range(0, 6), "eseed": rng.next()})
     return cases
@@ -1147,7 +1160,7 @@ def ms_edit(rng, units):
     units = list(units)
     sos = [i for i, u in enumerate(units) if u[0] == "seg" and u[1] == 0xDA]
     dhts = [u for u in units if u[0] == "seg" and u[1] == 0xC4]
-    kind = rng.choice(["dqt8", "dqt16", "dqt2", "dri", "dri", "com", "jfif", "dht-dup", "dht-unused", "adobe", "dqt-after"])
+    kind = rng.choice(["dqt8", "dqt16", "dqt2", "dri", "dri", "com", "jfif", "dht-dup", "dht-unused", "adobe", "dqt-after", "dnl", "dac", "dac", "sof-dup", "rst"])
     # position: before some SOS (index 0 = in the header, others = between scans)
     si = rng.choice(sos)
     # never between an SOS header and its entropy-coded data
@@ -1173,6 +1186,25 @@ def ms_edit(rng, units):
         units.insert(pos, ("seg", 0xE0, b"JFIF\0\x01" + bytes([rng.range(0, 2), rng.range(0, 2)]) + rng.range(1, 65535).to_bytes(2, "big") + rng.range(1, 65535).to_bytes(2, "big") + b"\0\0"))
     elif kind == "adobe":
         units.insert(pos, ("seg", 0xEE, b"Adobe\0\x64\0\0\0\0" + bytes([units and 1 or 0])))
+    elif kind == "dnl":
+        units.insert(pos, ("seg", 0xDC, rng.choice([b"", (rng.range(1, 65535)).to_bytes(2, "big"), rng.bytes(rng.range(1, 9))])))
+    elif kind == "dac":
+        prs = b""
+        for _ in range(rng.range(1, 5)):
+            idx = rng.range(0, 31)
+            if idx < 16:
+                u = rng.range(0, 15); val = (u << 4) | rng.range(0, u)
+            else:
+                val = rng.range(0, 255)
+            prs += bytes([idx, val])
+        units.insert(pos, ("seg", 0xCC, prs))
+    elif kind == "sof-dup":
+        sof = next(u for u in units if u[0] == "seg" and 0xC0 <= u[1] <= 0xCF and u[1] not in (0xC4, 0xC8, 0xCC))
+        si2 = units.index(sof)
+        if pos > si2:
+            units.insert(pos, sof)                     # a second SOFn: JERR_SOF_DUPLICATE, also after the first SOS
+    elif kind == "rst":
+        pass
     elif kind == "dht-dup" and dhts:
         units.insert(pos, rng.choice(dhts))
     elif kind == "dht-unused" and dhts:
@@ -1188,7 +1220,8 @@ def run_ms(ctx, R, cases):
     for c in cases:
         ds = [(m[0], marker_data(m)) for m in c["markers"]]
         samp = {1: "1x1", 3: "2x2,1x1,1x1", 4: "1x1,1x1,1x1,1x1"}[len(CSCOMPS[CSNUM[c["cs"]]])]
-        lines.append("jc %d %d %s %s %d %s 1 0 %d - d d 0 - %s" % (c["W"], c["H"], c["cs"], samp, c["prec"], c["mode"], c["restart"],
+        restart = c["restart"] if "l" not in c["mode"] or "R" in c["mode"] else c["restart"] * c["W"]
+        lines.append("jc %d %d %s %s %d %s %d %d %d - d d 0 - %s" % (c["W"], c["H"], c["cs"], samp, c["prec"], c["mode"], c.get("psv", 1), c.get("pt", 0), restart,
                                                                ",".join("%d:%s" % (code, d.hex()) for code, d in ds) or "-"))
     outs = R.harness(lines, lambda i: cases[i])
     hl, meta = [], []
@@ -1211,8 +1244,14 @@ def run_ms(ctx, R, cases):
         c = cases[ci]
         failed = False
         if " || err" in h or not h.startswith("view"):
-            # a redefined table may make the entropy decoder give up: not a header question
-            ctx.count("ms-decode-error", 1, None)
+            msg = h.split(" || err", 1)[1] if " || err" in h else h
+            if "SOF" in msg or "Unsupported_marker" in msg or "Invalid_SOS" in msg:
+                # header-level error (second SOFn, reserved marker): the model must refuse the file as well
+                R.corr("marker-sequence", "header-level error", m, "err", c)
+                ctx.count("ms-header-error", 1, ("mserr", msg[:60]))
+            else:
+                # a redefined table may make the entropy decoder give up: not a header question
+                ctx.count("ms-decode-error", 1, None)
             continue
         got = [v for v in h.split(" | ") if v.startswith("view ")]
         exp = expected_views(units)
@@ -1221,7 +1260,7 @@ def run_ms(ctx, R, cases):
         # of the later views are not judged by this oracle (the model decides them)
         def masked(v, e):
             vf, ef = v.split(), e.split()
-            for k in (2, 3):
+            for k in (2, 3):          # the dc= and ac= fields
                 a, b = vf[k].split("=")[1].split(","), ef[k].split("=")[1].split(",")
                 for j in (0, 1):
                     if b[j] == "-":
@@ -1263,14 +1302,25 @@ def xm_cases(ctx):
     rng = ctx.rng
     cases = []
     fixed = [(2, "01"), (2, "10"), (4, "01"), (2, "11"), (3, "01"), (1, "10"), (2, "010"), (4, "1001")]
-    for i in range(ctx.n(20, 200)):
-        sm, flags = fixed[i] if i < len(fixed) else (rng.range(0, 4), "".join(rng.choice("01") for _ in range(rng.range(2, 4))))
+    # every TJPARAM_SAVEMARKERS value x {single transform with / without COPYNONE, mixed call} x instance profile x source profile
+    fixed += [(sm, fl) for sm in range(5) for fl in ("0", "1", "01")]
+    for i in range(ctx.n(40, 300)):
+        sm, flags = fixed[i] if i < len(fixed) else (rng.range(0, 4), "".join(rng.choice("01") for _ in range(rng.range(1, 4))))
         cs = rng.choice(["gray", "ycc", "rgb", "cmyk", "ycck"])
-        ms = rng.shuffle([[254, rng.range(1, 60), rng.next(), "rand"], [225, rng.range(0, 80), rng.next(), "rand"],
-                          [226, rng.choice([3, 12, 13, 40]), rng.next(), rng.choice(["rand", "iccsig"])]])
-        cases.append({"kind": "xm", "cs": cs, "markers": ms, "icclen": rng.choice([0, rng.range(1, 2000), rng.range(1, 2000), CHUNK + rng.range(1, 40)]),
+        ms = [[254, rng.range(1, 60), rng.next(), "rand"]] if rng.chance(3, 4) else []                       # COM
+        if rng.chance(3, 4):
+            ms.append([225, rng.range(6, 200), rng.next(), "exif"])                                         # EXIF APP1
+        if rng.chance(1, 3):
+            ms.append([226, rng.choice([3, 12, 13, 40]), rng.next(), rng.choice(["rand", "iccsig"])])
+        if rng.chance(1, 4):
+            ms.append([224, rng.choice([5, 14, 30]), rng.next(), rng.choice(["jfif", "jfxx"])])
+        icclen = rng.choice([0, rng.range(1, 2000), rng.range(1, 2000), rng.range(1, 2000), CHUNK + rng.range(1, 40)])
+        cases.append({"kind": "xm", "cs": cs, "markers": rng.shuffle(ms), "icclen": icclen,
                       "iccseed": rng.next(), "iccpos": rng.choice([0, -1, 1]), "sm": sm, "flags": flags,
-                      "dsticc": rng.choice([0, rng.range(1, 900), rng.range(1, 900)]), "dstseed": rng.next()})
+                      # the source profile re-cut into many small APP2 chunks (k chunks, shuffled or not)
+                      "rechunk": rng.choice([0, 0, rng.range(2, 60), rng.range(2, 255)]) if icclen else 0, "reshuffle": int(rng.chance(1, 2)),
+                      "bufsize": int(rng.chance(1, 2)),
+                      "dsticc": rng.choice([0, rng.range(1, 900), rng.range(1, 900), CHUNK + rng.range(0, 3)]), "dstseed": rng.next()})
     return cases
 
 
@@ -1282,15 +1332,29 @@ def run_xm(ctx, R, cases):
         pos = c["iccpos"] if c["iccpos"] <= len(ds) else -1
         srcl.append("jc 16 16 %s 1x1,1x1,1x1,1x1 8 b 1 0 0 - d d %d %s %s" % (c["cs"], pos, hx(icc), ",".join("%d:%s" % (code, d.hex()) for code, d in ds)))
     srcs = R.harness(srcl, lambda i: cases[i])
+    for ci, (c, o) in enumerate(zip(cases, srcs)):
+        if c.get("rechunk") and o.startswith("ok "):
+            segs, tail = parse(bytes.fromhex(o[3:]))
+            idx = [i for i, s_ in enumerate(segs) if is_icc(*s_)]
+            prof = b"".join(segs[i][1][14:] for i in idx)
+            k = min(c["rechunk"], len(prof))
+            if idx and k >= 1:
+                cuts = [len(prof) * j // k for j in range(k + 1)]
+                new = [(0xE2, SIG + bytes([j + 1, k]) + prof[cuts[j]:cuts[j + 1]]) for j in range(k)]
+                if c.get("reshuffle"):
+                    new = SplitMix64(c["iccseed"]).shuffle(new)
+                segs = segs[:idx[0]] + new + segs[idx[-1] + 1:]
+                srcs[ci] = "ok " + rebuild(segs, tail).hex()
     srd = R.harness(["rd %s %s" % (ALLSAVE, o[3:]) if o.startswith("ok ") else "-" for o in srcs], lambda i: cases[i])
-    hl = ["xfm %d %s %s %s" % (c["sm"], c["flags"], hx(content(c["dstseed"], c["dsticc"])), o[3:]) if o.startswith("ok ") else "-" for c, o in zip(cases, srcs)]
+    hl = ["xfm %d %s %s %s %s" % (c["sm"], c["flags"], hx(content(c["dstseed"], c["dsticc"])), o[3:], "b" if c.get("bufsize") else "n") if o.startswith("ok ") else "-" for c, o in zip(cases, srcs)]
     outs = R.harness(hl, lambda i: cases[i])
-    ml, meta, hl2, meta2 = [], [], [], []
+    ml, meta, hl2, meta2, bl, bmeta, yl, ymeta = [], [], [], [], [], [], [], []
     for ci, (c, o, h) in enumerate(zip(cases, outs, srd)):
         if not srcs[ci].startswith("ok ") or not h.startswith("hdr"):
             continue
         if not o.startswith("ok "):
-            ctx.violation("tj3Transform with %d transforms failed: %s" % (len(c["flags"]), o[:60]), {"case": c}, signature="xm-failed")
+            ctx.violation("tj3Transform with %d transforms failed%s: %s" % (len(c["flags"]), " (buffers of tj3TransformBufSize() bytes, TJPARAM_NOREALLOC)" if c.get("bufsize") else "", o[:160]),
+                          {"case": c}, signature="xm-failed" + ("-bufsize" if "noreal" in o else ""))
             continue
         kv = dict(x.split("=", 1) for x in h.split() if "=" in x)
         jcs = int(kv["cs"]); wj, wa = jcs in (1, 3), jcs in (2, 4, 5)
@@ -1301,7 +1365,17 @@ def run_xm(ctx, R, cases):
         if dicc:
             n = (len(dicc) + CHUNK - 1) // CHUNK
             tail_icc = [(0xE2, SIG + bytes([k + 1, n]) + dicc[k * CHUNK:(k + 1) * CHUNK]) for k in range(n)]
-        res = o.split()[1:]
+        res = [x for x in o.split()[1:] if not x.startswith("bs=")]
+        bss = [x[3:].split(":") for x in o.split()[1:] if x.startswith("bs=")]
+        if bss:
+            # tj3TransformBufSize: the ICC term for each transform, against the model; the transform has succeeded with
+            # buffers of exactly that size (TJPARAM_NOREALLOC)
+            src_icc = py_read_icc(shead)
+            tsz = len(src_icc[1]) if src_icc[0] == "ok" and c["sm"] in (2, 4) else 0
+            tmk = sum(1 for code, d in shead if is_icc(code, d)) if tsz else 0
+            for ti, fl in enumerate(c["flags"]):
+                bl.append("bufsz %d %s %d %d %d" % (c["sm"], fl, tsz, tmk, len(dicc)))
+                bmeta.append((ci, ti, int(bss[ti][0]) - int(bss[ti][1])))
         gots = []
         for ti, fl in enumerate(c["flags"]):
             eopt = 0 if fl == "1" else c["sm"]
@@ -1326,11 +1400,27 @@ def run_xm(ctx, R, cases):
             wi = py_read_icc(want)
             hl2.append("tjrd -1 " + res[ti]); meta2.append((ci, ti, wi))
             ctx.count("xm-opt%d-%s" % (eopt, "mixed" if len(set(c["flags"])) > 1 else "uniform"), 1, ("xm", c["sm"], c["flags"], ti, tuple((a, len(b)) for a, b in got)))
+        # byte level: the model's whole output header (SOI, JFIF/Adobe with the copied version and density, extras)
+        yl.append("tjmb %d %s %d %s %s" % (c["sm"], c["flags"], jcs, hx(dicc), hx(rebuild(ssegs, b""))))
+        heads = []
+        for ti in range(len(c["flags"])):
+            ob = bytes.fromhex(res[ti]) if ti < len(res) and res[ti] != "-" else b""
+            osegs, _ = parse(ob) if ob else (None, None)
+            if osegs is None:
+                heads.append("?"); continue
+            nh = next(i for i, s_ in enumerate(osegs) if not is_appcom(s_[0]))
+            heads.append((b"\xff\xd8" + b"".join(seg_bytes(*s_) for s_ in osegs[:nh])).hex())
+        ymeta.append((ci, "b " + " ".join(heads)))
         ml.append("tjm %d %s %d %d %s %s" % (c["sm"], c["flags"], int(wj), int(wa), hx(dicc), hx(rebuild(ssegs, b""))))
         meta.append((ci, "x " + " | ".join("".join(" m %d %d %s ;" % (a, len(b), fnv(b)) for a, b in g) for g in gots)))
     mres = R.model(ml)
     for (ci, got), m in zip(meta, mres):
         R.corr("copy-multi", "per-transform extras", m, got, cases[ci])
+    for (ci, got), m in zip(ymeta, R.model(yl)):
+        R.corr("copy-multi-bytes", "output header bytes", m, got, cases[ci])
+    for (ci, ti, got), m in zip(bmeta, R.model(bl)):
+        R.corr("transform-bufsize", "ICC term of tj3TransformBufSize, transform %d" % ti, m, str(got), cases[ci])
+        ctx.count("xm-bufsize", 1, ("bufsz", got))
     hres = R.harness(hl2, lambda i: cases[meta2[i][0]])
     for (ci, ti, wi), h in zip(meta2, hres):
         got = h.rsplit("| ", 1)[-1].replace(" second-get-succeeded", "")
